@@ -272,6 +272,14 @@ def run_cli(argv, cwd, *, vk=None, git=None, clock=None, env=None, tracer=None, 
     if clock is not None:
         tf = vkmod.Facade(__import__("time"), {"time": clock.time})
         pairs += [(m["vindex"], "time", tf), (m["executor"], "time", tf)]
+        import datetime as _dt
+
+        class _FixedDateTime(_dt.datetime):
+            @classmethod
+            def now(cls, tz=None):
+                return _dt.datetime.utcfromtimestamp(clock.now)
+
+        pairs.append((m["carchive"], "datetime", vkmod.Facade(_dt, {"datetime": _FixedDateTime})))
 
     old_cwd = os.getcwd()
     old_argv = sys.argv
